@@ -263,10 +263,12 @@ int64_t wait_hook(const struct sim_wait_info *wi, void *) {
   std::stable_sort(due.begin(), due.end(), [](int a, int b) { return W->sl[a].deadline < W->sl[b].deadline; });
   bool tie = false; for (size_t k = 1; k < due.size(); k++) if (W->sl[due[k]].deadline == W->sl[due[k - 1]].deadline) tie = true;
   int cnt_before = W->cnt, lo_before = W->cnt_max, hi_before = W->cnt_max_hi;
+  bool inserted_any = false;
   for (int i : due) { Slot &m = W->sl[i];
-    if (!m.active) { int64_t dl = m.deadline; m_del(i); m.deadline = dl; ins_active(m, EV_TIMEOUT); if (m.kind == K_SIGNAL) m.ncalls = 1; }
+    if (!m.active) { int64_t dl = m.deadline; m_del(i); m.deadline = dl; ins_active(m, EV_TIMEOUT); if (m.kind == K_SIGNAL) m.ncalls = 1; inserted_any = true; }
     else { rem_timeout(m); if (!(m.res & EV_TIMEOUT)) W->f_merge = true; m.res |= EV_TIMEOUT; } }
-  if (tie) {   // equal deadlines: heap order unspecified, and the running maximum of the added-count depends on it (never above the value before)
+  if (tie && inserted_any) {   // equal deadlines: heap order unspecified, and the running maximum of the added-count depends on it (never above the value before).
+    // Only an insertion refreshes the library's maximum: when every due event was already active nothing is inserted and a cleared maximum stays 0.
     W->cnt_max = std::max(lo_before, W->cnt); W->cnt_max_hi = std::max(hi_before, cnt_before);
   }
   return 0;
